@@ -1,4 +1,6 @@
-package main
+// Package hx holds what every property harness shares: the PRNG, Coq term
+// printers, the result/evidence record and the command-line entry point.
+package hx
 
 import (
 	"encoding/json"
@@ -42,21 +44,21 @@ func Pick[T any](r *Rng, xs []T) T { return xs[r.Intn(len(xs))] }
 // ---------------------------------------------------------------- Coq printers
 // cases.v opens N_scope; Z and nat literals carry explicit scope keys.
 
-func coqN(v uint64) string { return fmt.Sprintf("%d", v) }
-func coqZ(v int64) string {
+func CoqN(v uint64) string { return fmt.Sprintf("%d", v) }
+func CoqZ(v int64) string {
 	if v < 0 {
 		return fmt.Sprintf("(%d)%%Z", v)
 	}
 	return fmt.Sprintf("%d%%Z", v)
 }
-func coqNat(v int) string { return fmt.Sprintf("%d%%nat", v) }
-func coqBool(b bool) string {
+func CoqNat(v int) string { return fmt.Sprintf("%d%%nat", v) }
+func CoqBool(b bool) string {
 	if b {
 		return "true"
 	}
 	return "false"
 }
-func coqBytes(b []byte) string {
+func CoqBytes(b []byte) string {
 	var sb strings.Builder
 	sb.WriteString("[")
 	for i, x := range b {
@@ -68,16 +70,16 @@ func coqBytes(b []byte) string {
 	sb.WriteString("]")
 	return sb.String()
 }
-func coqList(xs []string) string { return "[" + strings.Join(xs, "; ") + "]" }
-func coqOpt(s string, ok bool) string {
+func CoqList(xs []string) string { return "[" + strings.Join(xs, "; ") + "]" }
+func CoqOpt(s string, ok bool) string {
 	if ok {
 		return "(Some " + s + ")"
 	}
 	return "None"
 }
 
-// coqString renders a Go string as a list of byte values (list N).
-func coqString(s string) string { return coqBytes([]byte(s)) }
+// CoqString renders a Go string as a list of byte values (list N).
+func CoqString(s string) string { return CoqBytes([]byte(s)) }
 
 // ---------------------------------------------------------------- run result
 
@@ -97,8 +99,8 @@ type Result struct {
 	Samples            []any          `json:"samples"`
 	Distribution       map[string]int `json:"distribution"`
 	OracleFailures     []Failure      `json:"oracle_failures"`
-	CorrCases          int            `json:"corr_cases"`   // number of cases written to cases.v
-	CaseInputs         []any          `json:"case_inputs"`  // per cases.v index: replayable description
+	CorrCases          int            `json:"corr_cases"`  // number of cases written to cases.v
+	CaseInputs         []any          `json:"case_inputs"` // per cases.v index: replayable description
 	Notes              []string       `json:"notes"`
 	Imports            []string       `json:"-"`
 	CaseType           string         `json:"-"`
@@ -117,6 +119,8 @@ func (r *Result) AddCase(term string, input any) {
 	r.cases = append(r.cases, term)
 	r.CaseInputs = append(r.CaseInputs, input)
 }
+
+func (r *Result) NumCases() int { return len(r.cases) }
 
 // Seen records a canonical form; nontrivial ones count toward distinct_nontrivial.
 func (r *Result) Seen(canon string, nontrivial bool) {
@@ -176,7 +180,7 @@ func (r *Result) Write(outDir string, shard int) error {
 	return os.WriteFile(filepath.Join(outDir, "result.json"), js, 0o644)
 }
 
-func sortedKeys(m map[string]int) []string {
+func SortedKeys(m map[string]int) []string {
 	var ks []string
 	for k := range m {
 		ks = append(ks, k)
